@@ -6,11 +6,9 @@ require (
 	github.com/goplus/gogen v1.18.1
 	github.com/goplus/mod v0.17.0
 	github.com/goplus/xgo v0.0.0
+	github.com/qiniu/x v1.15.0
 )
 
-require (
-	github.com/qiniu/x v1.15.0 // indirect
-	golang.org/x/mod v0.20.0 // indirect
-)
+require golang.org/x/mod v0.20.0 // indirect
 
 replace github.com/goplus/xgo => /repo
